@@ -279,6 +279,9 @@ def pool_body(args):
             if spawned and proc.ran_to_end and st == LocalStatus.COMPLETED:
                 if pool.log(nm, "stdout") != proc.stdout.decode() or pool.log(nm, "stderr") != proc.stderr.decode():
                     problems.append("[C13] logs of completed task %s are incomplete: %r / %r" % (nm, pool.log(nm, "stdout"), pool.log(nm, "stderr")))
+            if spawned and tl is not None and proc.killed_at is not None and tid not in eff_cancel and not proc.ran_to_end:
+                if proc.killed_at < proc.spawned_at + tl:
+                    problems.append("[C13] task %s was killed for exceeding its time limit of %s s after running only %s s" % (nm, tl, proc.killed_at - proc.spawned_at))
             if spawned and st == LocalStatus.COMPLETED and not (proc.ran_to_end and proc.rc_given == 0):
                 problems.append("[C13] task %s is completed but its process did not run to an exit status 0" % nm)
             if spawned and proc.returncode is None:
